@@ -5,8 +5,10 @@ package props
 import (
 	"fmt"
 	"math/big"
+	"runtime"
 	"strings"
 	"sync"
+	"sync/atomic"
 	"testing"
 	"testing/synctest"
 	"time"
@@ -17,7 +19,25 @@ import (
 	"verif/vt"
 )
 
+// perturbWriter is installed as the pool's log output: while enabled, every log line the pool writes yields the
+// processor a few thousand times, so that whatever other goroutines are runnable get to run in the middle of the
+// logging code path. Statements that sit between a check and its action only because a log line was put there
+// thereby become real interleaving points (pool.SetLogger is the package's own seam).
+type perturbWriter struct{ on int32 }
+
+func (w *perturbWriter) Write(p []byte) (int, error) {
+	if atomic.LoadInt32(&w.on) != 0 {
+		for i := 0; i < 3000; i++ {
+			runtime.Gosched()
+		}
+	}
+	return len(p), nil
+}
+
+var c09Perturb = &perturbWriter{}
+
 func c09Case(rt *rapid.T, rec *vt.Rec) {
+	pool.SetLogger(c09Perturb)
 	cfg := sessCfg{Driver: rapid.SampledFrom([]string{"memory", "memory", "badger"}).Draw(rt, "driver"), Price: big.NewInt(1000), Interval: time.Minute, Yield: true}
 	nHosts := rapid.IntRange(1, 3).Draw(rt, "nHosts")
 	s := newSession(rt, cfg, nHosts+1)
@@ -214,6 +234,7 @@ func c09Case(rt *rapid.T, rec *vt.Rec) {
 			// in truly parallel goroutines: whichever comes first, the new registration must survive
 			h := rapid.IntRange(0, nHosts-1).Draw(rt, "host")
 			reps := rapid.IntRange(3, 12).Draw(rt, "reps")
+			atomic.StoreInt32(&c09Perturb.on, 1)
 			for r := 0; r < reps; r++ {
 				cur := s.openConn(h, "")
 				s.model.connect(s.agents[h].id.nodeID, cur.id, true, "geth", "")
@@ -221,7 +242,7 @@ func c09Case(rt *rapid.T, rec *vt.Rec) {
 					fail("host connect: %v", err)
 				}
 				next := s.openConn(h, "")
-				spin := rapid.IntRange(0, 60000).Draw(rt, "spin")
+				spin := rapid.IntRange(0, 1500000).Draw(rt, "spin")
 				var wg sync.WaitGroup
 				wg.Add(2)
 				var cerr error
@@ -248,6 +269,7 @@ func c09Case(rt *rapid.T, rec *vt.Rec) {
 					fail("host %s re-registered on conn#%d while its old conn#%d was being reaped: the pool now counts %d connected hosts, %d have a live registered connection", s.agents[h].id.name, next.id, cur.id, got, want)
 				}
 			}
+			atomic.StoreInt32(&c09Perturb.on, 0)
 			logf("host %s: %d times re-register while the old connection is reaped concurrently", s.agents[h].id.name, reps)
 			classes["reconnect-race"] = true
 			classes["reconnect"] = true
